@@ -5,7 +5,7 @@ From Centro Require Import Base.Sx Base.EmdBase Spec.Emd Model.Emd Model.EmdCert
   Proofs.EmdDuality Proofs.EmdScaled Proofs.EmdModel Proofs.EmdSsp Proofs.EmdCertModel Proofs.EmdMetric
   Proofs.EmdFuel Proofs.EmdHeap Proofs.EmdTransform Proofs.EmdHeapPos Proofs.EmdHeapOrd Proofs.EmdPotential
   Proofs.EmdMcfCert Proofs.EmdHeapMem Proofs.EmdDijkstra Proofs.EmdDijkstraInit
-  Proofs.EmdTight Proofs.EmdGhost Proofs.EmdCspPost Proofs.EmdPairAddr Proofs.EmdGraphShape Proofs.EmdAugment.
+  Proofs.EmdTight Proofs.EmdGhost Proofs.EmdCspPost Proofs.EmdPairAddr Proofs.EmdGraphShape Proofs.EmdAugment Proofs.EmdRun Proofs.EmdConserve.
 From Centro Require Import Model.EmdMcf.
 Import ListNotations.
 Open Scope Z_scope.
@@ -460,3 +460,57 @@ Print Assumptions C10_hop_entry_zero.
    mcf_no_fail_if_flag_clear  — Done or the flag;
    read_back_bookkeeping      — through rename_cc / red_c to emd_spec (C10_model_emd_correct_if_A_idle);
    artificial_node_unused     — the flag is never set on the graphs of emd_hat_impl.hpp. *)
+
+(* ------------------------------------------------------------------------------------------------
+   Round 9.  mcf_run_invariant — Full under the run's flag: along the whole flagged run of the
+   line-level solver (any fuel level k, started from any state satisfying the invariant; run_init
+   shows mcf_init does, for graphs with non-negative costs and in-range targets), if the final flag
+   is clear then every state reached keeps: lengths, ghost potentials, every residual arc of
+   reduced cost >= 0, no negative capacity. *)
+Theorem C10_mcf_run_invariant : forall nv c, length c = nv ->
+  forall k st fl r fl', RunInv nv c st ->
+  mcf_iter_f k st fl = (r, fl') -> fl' = false ->
+  match r with MDone st' | MMore st' => RunInv nv c st' | MFail => True end.
+Proof. exact run_iter. Qed.
+Print Assumptions C10_mcf_run_invariant.
+
+(* C10_mcf_model_optimal_if_A_idle — PARTIAL (suffix kept).  Proved: when the flagged run of
+   min_cost_flow_ll_f ends in Done with the flag clear (the flag is evaluated per case in the
+   correspondence: never set), COMPLEMENTARY SLACKNESS holds for the flow f(a) := capacity of the
+   backward entry of arc a, with the ghost potentials pi: f >= 0, every arc has reduced cost >= 0,
+   every arc with f(a) > 0 has reduced cost <= 0 — premises 1, 4, 5 of C10_mcf_cert_optimal.
+   MISSING for "the returned flow is a minimum-cost flow": premise 3 (conservation) for the whole
+   run — its per-hop step is C10_hop_conserves below; lifting it through augment / mcf_iter_f is
+   lemma caps_flow_conserved — and x_caps_consistent (the x lists that are returned carry the same
+   net flow as the capacities).  artificial_node_unused (flag never set) also still open. *)
+Theorem C10_mcf_model_optimal_if_A_idle_partial : forall nv c, length c = nv ->
+  forall e st fl, length e = nv ->
+  (forall l tc, In l c -> In tc l -> (fst tc < nv)%nat /\ 0 <= snd tc) ->
+  mcf_iter_f ssp_levels (mcf_init e c) false = (MDone st, fl) -> fl = false ->
+  exists pi, ghost nv c pi (m_rf st) (m_rb st) /\
+    (forall a, In a (mk_arcs c) -> 0 <= a_cost a + pi (a_from a) - pi (a_to a)) /\
+    (forall a cap, In a (mk_arcs c) ->
+       In (a_from a, - a_cost a + pi (a_to a) - pi (a_from a), cap) (nth (a_to a) (m_rb st) []) ->
+       0 <= cap /\ (0 < cap -> a_cost a + pi (a_from a) - pi (a_to a) <= 0)).
+Proof. exact run_final_slackness. Qed.
+Print Assumptions C10_mcf_model_optimal_if_A_idle_partial.
+
+(* flow conservation, per hop: with exactly one arc between from and to, exactly one of the two
+   capacity entries a hop addresses exists (C10_one_entry), and the hop leaves
+   excess - inflow + outflow  unchanged at every node (inflow / outflow of the capacity flow). *)
+Theorem C10_one_entry : forall nv c, length c = nv ->
+  forall pi rf rb from to, ghost nv c pi rf rb -> (from < nv)%nat -> (to < nv)%nat ->
+  pair_count rf from to = 1%nat ->
+  has_to (nth to rb []) from + has_to (nth from rb []) to = 1.
+Proof. exact one_entry. Qed.
+Print Assumptions C10_one_entry.
+
+Theorem C10_hop_conserves : forall nv c pi rf rb e from to dl, length c = nv ->
+  ghost nv c pi rf rb -> length e = nv -> (from < nv)%nat -> (to < nv)%nat -> from <> to ->
+  pair_count rf from to = 1%nat ->
+  let rb1 := upd rb to (fun l => upd_first_bwd l from (fun c0 => c0 + dl)) in
+  let rb2 := upd rb1 from (fun l => upd_first_bwd l to (fun c0 => c0 - dl)) in
+  let e' := upd (upd e to (fun x => x + dl)) from (fun x => x - dl) in
+  forall v, bal nv e' rb2 v = bal nv e rb v.
+Proof. exact hop_conserves. Qed.
+Print Assumptions C10_hop_conserves.
